@@ -430,7 +430,9 @@ def _apply(g, o):
 
 INVENTORY = ("dims", "sizes", "coordinates", "connectivity")
 FINAL_SWEEP = ["node_x", "node_y", "node_z", "node_lon", "node_lat", "face_node_connectivity", "n_nodes_per_face", "face_lon", "face_lat",
-               "face_x", "face_z", "edge_node_connectivity", "edge_lon", "edge_x", "face_areas", "edge_face_distances", "edge_node_distances"]
+               "face_x", "face_z", "edge_node_connectivity", "edge_lon", "edge_x", "face_areas", "edge_face_distances", "edge_node_distances",
+               "edge_face_connectivity", "face_edge_connectivity", "node_face_connectivity", "face_face_connectivity", "hole_edge_indices",
+               "antimeridian_face_indices"]
 
 
 def _inv(n):
